@@ -61,6 +61,36 @@ CHECKS.update({
    text="All traces up to depth 4-7, all <=2..4-deviation traces to depth 12-14 with default select(1000), and all <=2..3-deviation traces to depth 26-40 around the pattern proof, select(250|500), proof, select, ... (which walks a complete rejoin dwell), from a fresh state and from a scripted latched state, for 2-3 links and up to 24 settings of RTT baseline x in-flight threshold x ceiling (incl. a ceiling below the floor). Proof, hearing, drain and REG_ERR events are datagrams pushed through the real handle_uplink_packet; the monitor keeps its own run-start, recomputes the window and judges every latch / pull edge and both counters. The run is rejected as vacuous unless rising and falling edges of both tiers were observed.",
    note="Trusted: the temporal monitor (about 80 lines). Thresholds, ceiling and RTT are fixed per trace. Scheduling decisions are direct calls of select_connection_idx.",
    design="3/C13"),
+ "C01": dict(
+   engine="seqx+world",
+   technique="exhaustive event-sequence exploration of the mirrored event loop (real shell functions over loopback UDP, virtual clock) with a ledger / wire monitor",
+   text="All event sequences to depth 4-6 over client datagrams (data, R-flagged, control, 1-byte, MTU, bursts of 16/33), flush ticks on the 15 ms grid, housekeeping, SRT/SRTLA ACKs, keepalive echoes, duplicate REG3, receiver-socket close/open and clock jumps, from up to nine scripted real start states (live, streaming, link stall-latched and gated, every link latched, timed out, classic, low/high batch regime), plus <=1..2-deviation sequences of depth 36-240 around the pattern 7 x data + flush (crossing the 1-in-100 probe cadence and the batch thresholds). After every event the bytes read from each receiver-side socket must be, in order, exactly the next pending accepted datagrams of that link; queues must be empty after each flush tick unless the link was reset; nothing is dropped while a usable link exists; extra copies only on gated links within the cadence.",
+   note="Trusted: the ~60-line mirror of the select! arms (bound to the source by a call-order and token-digest fingerprint; a change to that glue yields exit 2), the ledger/wire monitor, Linux loopback FIFO delivery (end-of-event sentinel per socket, worker threads pinned to one CPU), pending socket errors captured into the state. Short sendmmsg results are not exercised.",
+   design="3/C01"),
+ "C04": dict(
+   engine="seqx+world",
+   technique="exhaustive event-sequence exploration of the mirrored event loop with a per-routing-decision eligibility oracle",
+   text="All event sequences to depth 4-6 (and <=2-deviation sequences to depth 60) over data / R-flagged data / control datagrams, critical-window hints, NAKs, ACKs, keepalive echoes, REG_ERR, REG3, housekeeping, clock jumps and runtime toggles of mode / guard / quality, from ten scripted start states (live, streaming, link 0 or 1 stall-latched and gated, timed out and awaiting back-off, after REG_ERR; enhanced and classic; quality on/off), for 2 and 3 links. For every accepted datagram after establishment the link that received the unique copy must not be registering, timed out (own rule) or stall-gated at that instant. The override's choice depends on a cached quality value refreshed only for links the selector scores, i.e. on the past, which is why histories rather than states are enumerated.",
+   note="Trusted: the glue mirror + fingerprint, the eligibility oracle (own time-out rule; the gate flag as recomputed by the real selector in that call). Pre-establishment forwarding is outside the statement.",
+   design="3/C04"),
+ "C07": dict(
+   engine="statex+world",
+   technique="explicit-state BFS with canonical keys over the handshake world (real handle_uplink_packet + handle_housekeeping), independent wire-level monitor",
+   text="Breadth-first search with de-duplication over all orders of REG_NGP, REG2 (right id / other id / 257 bytes / 2 bytes), REG3, REG_ERR on any of 2-3 links and housekeeping passes at 1..5000 ms spacings (straddling the 1 s throttle, 2 s probe window, 4 s REG2/REG3 time-outs, 5 s grace), from a cold start and from an established session, to depth 5-14. Replies are not tied to requests. The monitor watches REG1/REG2 on the receiver-side sockets: never two group-creating REG1 outstanding on different links, no REG1 while a link is connected, adoption only from the REG1 link with a full-length id, exactly one broadcast round, ids carried, connected only on REG3, abandonment after 4 s (with reachability counters guarding against vacuity).",
+   note="Trusted: the glue mirror + fingerprint, the canonicalisation (deadlines saturated just above the largest compared constant; fields without influence on handshake output dropped), the monitor. Depth-bounded, not a fixpoint.",
+   design="3/C07"),
+ "C09": dict(
+   engine="prodx+world",
+   technique="exhaustive product enumeration of datagrams x link states through the real uplink arm, reading the simulated client socket back",
+   text="All 65536 type codes at the listed lengths and tails, all lengths 0..64 for 16 type codes x 4 tails, all tails over {00,7f,80,ff} up to 6 bytes, and crafted SRT ACK / NAK / SRTLA ACK / keepalive / handshake datagrams referring to the link state, injected on both links of up to nine scripted states (registering, warming, live idle, live with known numbers outstanding incl. a duplicate-probe number, awaiting a keepalive echo, stall-latched; client address known or not). Oracle from the statement: relay iff not SRTLA-internal, byte-identical, nothing without a client address, liveness stamp on every non-registration datagram, delivery-proof stamp iff earned SRTLA ACK or answered keepalive (all links compared). Runs in a child process with an address-space limit.",
+   note="Trusted: glue mirror + fingerprint, the oracle. Reader tasks / recvmmsg batching are bypassed (datagrams are injected as UplinkPacket).",
+   design="3/C09"),
+ "C10": dict(
+   engine="seqx+world",
+   technique="exhaustive closed-loop history exploration of the mirrored event loop in lock-step with an independent re-implementation of the reference rules",
+   text="All event sequences to depth 4-6 and <=1..2-deviation sequences to depth 80-200 around a closed loop (data, SRTLA ACKs, flush) over data / R-flagged / control datagrams, critical-window hints, bursts, SRTLA ACKs for own and other links' numbers, cumulative ACKs, NAKs (fresh and duplicate), keepalive echoes and housekeeping, in classic mode with the guard off (set through the real control dispatcher), for 2-4 links from three scripted start states. After every client datagram the link that received the unique copy must equal the reference choice (first maximum of window/(in-flight+queued+1) over usable links); after every uplink datagram and housekeeping pass every window must equal the reference windows (+29 / +1 / -100 / bounds / nothing on housekeeping).",
+   note="Trusted: glue mirror + fingerprint, the ~60-line integer reference model. Which link a NAK is charged to is read off the loss counters (C05's subject).",
+   design="3/C10"),
 })
 
 NOT_YET = {
